@@ -115,8 +115,11 @@ CLAIMED = {
              'sub-graphs are the induced ones; cross-consistency, order- and renaming-invariance; all linear extensions. '
              'Lane: all labelled DAGs <= 4 (quick) / <= 5 (thorough) nodes, all nodes and pairs, mixed graphs on 3 nodes, '
              'relabelings, shuffled construction.',
-        note=_COMMON_NOTE + 'networkx ancestors/descendants/all_simple_paths/topological sorts are assumed to agree with the '
-                            'definitional model; measured exhaustively on the small universes.'),
+        note=_COMMON_NOTE + 'networkx ancestors / descendants / all_simple_paths / topological_sort / all_topological_sorts: the '
+                            'routines of 3.2.1 are transcribed (CG/Model/NxReach.lean, NxTopo.lean) and PROVED to compute the '
+                            'definitional notions on every graph (CG.NxReachProofs, CG.NxTopoProofs: 70 theorems); the lane '
+                            'compares what the code returns, order included, with the transcriptions run on the code\'s own '
+                            'to_networkx() export; trusted: that the transcribed lines are what networkx runs.'),
     'C11': dict(
         technique='Lean 4 proof (boolean d-separation procedure = path-blocking definition for every edge list; the algorithm '
                   'networkx runs - leaf pruning, out-edge deletion, weak connectivity - transcribed and proved equivalent on every '
